@@ -3,10 +3,10 @@ from __future__ import annotations
 
 PFX = {"submodule": "smod", "o": "op", "pp": "pp", "iface_op": "op", "a": "a", "module": "mod", "program": "prg", "sub": "sub", "fun": "fun", "t": "typ", "g": "gen", "v": "v", "b": "b",
        "x": "x", "nomod": "nomod", "type": "typ", "iface_named": "gen", "ibody": "ibd"}
-ENDKW = {"submodule": "submodule", "iface_op": "interface", "module": "module", "program": "program", "sub": "subroutine", "fun": "function", "ibody_sub": "subroutine",
+ENDKW = {"ldo": "do", "submodule": "submodule", "iface_op": "interface", "module": "module", "program": "program", "sub": "subroutine", "fun": "function", "ibody_sub": "subroutine",
          "ibody_fun": "function", "type": "type", "iface_named": "interface", "iface_abstract": "interface",
          "block": "block", "do": "do", "if": "if", "select": "select", "associate": "associate", "where": "where"}
-OPEN_CONSTRUCT = {"block": "block", "do": "do", "if": "if (.true.) then", "select": "select case (1)",
+OPEN_CONSTRUCT = {"block": "block", "do": "do", "ldo": "do %d", "if": "if (.true.) then", "select": "select case (1)",
                   "associate": "associate (q => 1)", "where": "where ([1] > 0)"}
 # LSP SymbolKind sets admissible per class (the property says "the right kind", not which protocol number)
 KINDS = {"module": {2}, "submodule": {2}, "program": {2}, "sub": {12, 6}, "fun": {12, 6}, "type": {5, 23}, "iface_named": {11},
@@ -63,6 +63,8 @@ def stmt_text(prog, i, ibody_kinds):
             return "abstract interface"
         if kind == "iface_op":
             return "interface operator(.op%s.)" % "abcdefghij"[st["name"][1] % 10]
+        if kind == "ldo":
+            return "do %d" % (10 * st["ln"])
         return OPEN_CONSTRUCT[kind]
     if op == "use":
         return "use " + nm(st["name"])
@@ -95,6 +97,17 @@ def stmt_text(prog, i, ibody_kinds):
         return {"open": "subroutine (", "decl": "integer ::", "use": "use ,", "end": "end sub"}.get(kind, "&")
     if op == "end":
         form = st.get("form", "kind")
+        if kind == "ldo" and form != "bare":
+            # the terminal statement of a labelled DO: "<label> continue"; the label is that of the matching DO
+            depth = 0
+            for j in range(i - 1, -1, -1):
+                if prog[j]["op"] == "end" and prog[j]["depth"] == st["depth"]:
+                    depth += 1
+                elif prog[j]["op"] == "open" and prog[j]["depth"] == st["depth"] - 1:
+                    if depth == 0:
+                        return "%d continue" % (10 * prog[j]["ln"])
+                    depth -= 1
+            return "end do"
         if form == "bare":
             return "end"
         k = kind
